@@ -360,8 +360,10 @@ class StreamEncoder(stream.PipelinedActor):
         # Datapath
         for i in range(nwords):
             self.comb += [
-                encoder.k[i].eq(sink.k[i]),
-                encoder.d[i].eq(sink.d[8*i:8*(i+1)]),
+                # Pipeline bubbles (no valid token) encode D.0.0: it is balanced, so the running disparity
+                # seen by the stream of valid code words stays continuous.
+                encoder.k[i].eq(sink.k[i] & sink.valid),
+                encoder.d[i].eq(Mux(sink.valid, sink.d[8*i:8*(i+1)], 0)),
                 source.data[10*i:10*(i+1)].eq(encoder.output[i])
             ]
 
